@@ -55,6 +55,7 @@ type Frame struct {
 	entryPC string
 	prefix string // anchor prefix for inlined frames
 	debugVars map[string]ssa.Value
+	debugVals map[string]Val
 }
 
 // runBody symbolically executes fn from state st under path condition pc.
@@ -411,6 +412,12 @@ func (fr *Frame) loopWrites(li *loopInfo) (keys map[string]bool, all bool) {
 			for _, k := range fr.e.keysOfPointer(x.Addr) {
 				keys[k] = true
 			}
+		case *ssa.Next:
+			if rg, ok := x.Iter.(*ssa.Range); ok && !x.IsString {
+				if _, isMap := rg.X.Type().Underlying().(*types.Map); isMap {
+					keys[rangeKey(rg)] = true
+				}
+			}
 		case *ssa.MapUpdate:
 			for _, k := range mapKeys(x.Map.Type()) {
 				keys[k] = true
@@ -571,6 +578,18 @@ func (e *Exec) pendingHavoc(st *State, key string) {
 
 func (fr *Frame) loopEnv(li *loopInfo, st *State, phiOverride map[*ssa.Phi]Val) *SpecEnv {
 	env := fr.e.baseEnv(fr, st)
+	for b := range li.body {
+		for _, in := range b.Instrs {
+			if nx, ok := in.(*ssa.Next); ok {
+				if rg, ok := nx.Iter.(*ssa.Range); ok {
+					if _, isMap := rg.X.Type().Underlying().(*types.Map); isMap && !li.body[rg.Block()] {
+						env.rangeKey = rangeKey(rg)
+						env.rangeMap = rg.X.Type()
+					}
+				}
+			}
+		}
+	}
 	for _, in := range li.head.Instrs {
 		if phi, ok := in.(*ssa.Phi); ok && phi.Comment != "" {
 			v := fr.vals[phi]
